@@ -314,6 +314,8 @@ type hookState struct {
 	snap    uint64 // atomic: tick<<40 | pending<<30 | inprog<<20 | skip<<10 | done
 	abandon int32  // atomic
 	tick    uint64 // owned by the scheduler goroutine
+	loops   uint64 // atomic: iterations of the scheduler loop (every branch)
+	lsnap   uint64 // atomic: pending<<30 | inprog<<20 | skip<<10 | done as seen at the top of the last iteration
 }
 
 var hooks sync.Map // graph name -> *hookState
@@ -332,6 +334,26 @@ func init() {
 		atomic.StoreUint64(&h.snap, h.tick<<40|uint64(pending&1023)<<30|uint64(inProgress&1023)<<20|uint64(skip&1023)<<10|uint64(done&1023))
 	}
 }
+
+func init() {
+	dag.VerifLoop = func(name string, pending, inProgress, skip, done int) {
+		v, ok := hooks.Load(name)
+		if !ok {
+			return
+		}
+		h := v.(*hookState)
+		if atomic.LoadInt32(&h.abandon) == 1 {
+			select {} // park the abandoned scheduler forever (verdict already taken)
+		}
+		atomic.StoreUint64(&h.lsnap, uint64(pending&1023)<<30|uint64(inProgress&1023)<<20|uint64(skip&1023)<<10|uint64(done&1023))
+		atomic.AddUint64(&h.loops, 1)
+	}
+}
+
+// spinLimit - iterations of the scheduler loop without any visible effect (no vertex changing status, no idle tick, no task
+// function entered or left) after which the scheduler is taken to spin: a correct scheduler completes, launches (at most once
+// per vertex) or idles in every iteration, so the number of silent iterations is bounded by the number of vertices.
+const spinLimit = 20000
 
 func unpack(s uint64) (tick uint64, pending, inprog, skip, done int) {
 	return s >> 40, int(s>>30) & 1023, int(s>>20) & 1023, int(s>>10) & 1023, int(s) & 1023
@@ -800,12 +822,39 @@ func Execute(spec *Spec) *Trace {
 		}
 		stab := make([]eagerStab, ng)
 		gone := make([]bool, ng)
+		eagerSpinSig := make([][3]uint64, ng)
+		eagerSpinStart := make([]uint64, ng)
 		for returned < ng {
 			select {
 			case rr := <-resCh:
 				collect(rr)
 				gone[rr.gi] = true
 			case <-time.After(200 * time.Microsecond):
+				// scheduler iterations without any visible effect (logical time, every branch of the loop counts)
+				for gi, h := range hs {
+					if gone[gi] {
+						continue
+					}
+					loops, ls, sn := atomic.LoadUint64(&h.loops), atomic.LoadUint64(&h.lsnap), atomic.LoadUint64(&h.snap)
+					r.mu.Lock()
+					sig := [3]uint64{sn, ls, uint64(r.seq)}
+					r.mu.Unlock()
+					if sig != eagerSpinSig[gi] {
+						eagerSpinSig[gi], eagerSpinStart[gi] = sig, loops
+					} else if loops-eagerSpinStart[gi] > spinLimit && atomic.LoadInt32(&r.live) == 0 {
+						if blocked, gdesc := taskGoroutinesBlocked(); blocked && atomic.LoadInt32(&r.live) == 0 && atomic.LoadUint64(&h.snap) == sn {
+							_, lp, lip, lsk, ldn := unpack(ls)
+							tr.Stalled = fmt.Sprintf("the scheduler of g%d went through %d iterations without starting, completing or finding nothing to do (pending=%d inprogress=%d skip=%d done=%d), no task function is executing; %s", gi, loops-eagerSpinStart[gi], lp, lip, lsk, ldn, gdesc)
+							abandon()
+							returned = ng
+							break
+						}
+						eagerSpinStart[gi] = loops
+					}
+				}
+				if tr.Stalled != "" {
+					break
+				}
 				if atomic.LoadInt32(&r.live) == 0 {
 					all, desc := true, ""
 					for gi, h := range hs {
@@ -877,6 +926,8 @@ func Execute(spec *Spec) *Trace {
 		var lastCounts [4]int
 		stable := 0
 		stableSince := time.Now()
+		var spinSig [4]uint64
+		var spinStart uint64
 		cancelSeen := false
 	CONTROL:
 		for returned < ng {
@@ -1019,6 +1070,24 @@ func Execute(spec *Spec) *Trace {
 				tr.Timeout = "run stopped by the controller: a task was entered more often than retries+1"
 				abandon()
 				break
+			}
+			// scheduler iterations without any visible effect (logical time, every branch of the loop counts)
+			{
+				loops, ls := atomic.LoadUint64(&h.loops), atomic.LoadUint64(&h.lsnap)
+				r.mu.Lock()
+				sig := [4]uint64{tick, ls, uint64(r.seq), uint64(len(r.parked))}
+				r.mu.Unlock()
+				if sig != spinSig {
+					spinSig, spinStart = sig, loops
+				} else if loops-spinStart > spinLimit && atomic.LoadInt32(&r.live) == 0 && sig[3] == 0 {
+					if blocked, gdesc := taskGoroutinesBlocked(); blocked && atomic.LoadInt32(&r.live) == 0 && atomic.LoadUint64(&h.snap)>>40 == tick {
+						_, lp, lip, lsk, ldn := unpack(ls)
+						tr.Stalled = fmt.Sprintf("the scheduler went through %d iterations without starting, completing or finding nothing to do (pending=%d inprogress=%d skip=%d done=%d), no task function is executing; %s", loops-spinStart, lp, lip, lsk, ldn, gdesc)
+						abandon()
+						break
+					}
+					spinStart = loops
+				}
 			}
 			if time.Now().After(deadline) {
 				tr.Timeout = fmt.Sprintf("no quiescent point and no return within the watchdog (last snapshot pending=%d inprogress=%d skip=%d done=%d)", p, ip, sk, dn)
